@@ -83,7 +83,12 @@ type SignExpect struct {
 }
 
 type SignCase struct {
-	Type     string     `json:"type"` // "sign"
+	Type     string     `json:"type"`                  // "sign"
+	Entry    string     `json:"entry"`                 // "authorize" (AuthorizeAndSignCertificate) | "autoconf" (parseAutoConfigCSR + node check + SignCertificate)
+	Node     string     `json:"node"`                  // hex; autoconf: the node name the JWT authorized
+	LeafEqRq bool       `json:"leaf_eq_request"`       // the leaf's URI string is the String() of the URL the CSR parser produced (not re-printed by the CA)
+	DecorRq  bool       `json:"decoration_in_request"` // the leaf's query/fragment/userinfo/no-authority form is the request's
+	Mech     string     `json:"unreadable_mechanism,omitempty"`
 	World    int        `json:"world"`
 	N        int        `json:"n"`
 	DC       string     `json:"dc"`      // hex
@@ -182,10 +187,10 @@ type raftHandle struct {
 	apply func(msg []byte) (any, error)
 }
 
-func (h *raftHandle) Apply(msg []byte) (any, error)                 { return h.apply(msg) }
-func (raftHandle) IsLeader() bool                                   { return true }
-func (raftHandle) EnsureStrongConsistency(context.Context) error    { return nil }
-func (raftHandle) DialLeader() (*grpc.ClientConn, error)            { return nil, errors.New("no") }
+func (h *raftHandle) Apply(msg []byte) (any, error)              { return h.apply(msg) }
+func (raftHandle) IsLeader() bool                                { return true }
+func (raftHandle) EnsureStrongConsistency(context.Context) error { return nil }
+func (raftHandle) DialLeader() (*grpc.ClientConn, error)         { return nil, errors.New("no") }
 
 type memSink struct {
 	bytes.Buffer
@@ -1233,34 +1238,42 @@ type ident struct {
 
 // readIdentity is the oracle's own reading of a SPIFFE URI *string*: split off scheme and
 // authority, split the path on "/", percent-decode each segment. It shares no code with
-// connect.ParseCertURI or net/url.
-func readIdentity(s string) (ident, bool) {
+// connect.ParseCertURI or net/url. A SPIFFE ID has the form spiffe://<trust domain>/<path> and
+// nothing else: decor names what else the string carries ("query", "fragment", "userinfo",
+// "no-authority"); the identity is still read so that the other clauses can be evaluated.
+func readIdentity(s string) (id ident, ok bool, decor string) {
 	const pre = "spiffe:"
 	if !strings.HasPrefix(s, pre) {
-		return ident{}, false
+		return ident{}, false, ""
 	}
 	rest := s[len(pre):]
-	// decorations that do not take part in the identity: fragment, query, userinfo
+	var decs []string
 	if i := strings.IndexByte(rest, '#'); i >= 0 {
 		rest = rest[:i]
+		decs = append(decs, "fragment")
 	}
 	if i := strings.IndexByte(rest, '?'); i >= 0 {
 		rest = rest[:i]
+		decs = append(decs, "query")
 	}
 	host := ""
 	if strings.HasPrefix(rest, "//") {
 		rest = rest[2:]
 		slash := strings.IndexByte(rest, '/')
 		if slash < 0 {
-			return ident{}, false
+			return ident{}, false, strings.Join(decs, "+")
 		}
 		host, rest = rest[:slash], rest[slash:]
 		if i := strings.LastIndexByte(host, '@'); i >= 0 {
 			host = host[i+1:]
+			decs = append(decs, "userinfo")
 		}
+	} else {
+		decs = append(decs, "no-authority")
 	}
+	decor = strings.Join(decs, "+")
 	if !strings.HasPrefix(rest, "/") {
-		return ident{}, false
+		return ident{}, false, decor
 	}
 	path := rest[1:]
 	segs := strings.Split(path, "/")
@@ -1268,29 +1281,30 @@ func readIdentity(s string) (ident, bool) {
 	for i, sg := range segs {
 		d, ok := pctDecode(sg)
 		if !ok || d == "" {
-			return ident{}, false
+			return ident{}, false, decor
 		}
 		dec[i] = d
 	}
-	id := ident{host: host, ap: "default"}
+	id = ident{host: host, ap: "default"}
+	hasAP := false
 	if len(segs) >= 2 && segs[0] == "ap" {
 		id.ap = dec[1]
+		hasAP = true
 		segs, dec = segs[2:], dec[2:]
 	}
 	switch {
 	case len(segs) == 6 && segs[0] == "ns" && segs[2] == "dc" && segs[4] == "svc":
 		id.kind, id.ns, id.dc, id.name = "service", dec[1], dec[3], dec[5]
 	case len(segs) == 6 && segs[0] == "agent" && segs[1] == "client" && segs[2] == "dc" && segs[4] == "id":
-		// community edition has no partitions and prints agent identities without one
-		id.kind, id.dc, id.name, id.ap = "agent", dec[3], dec[5], "default"
+		id.kind, id.dc, id.name = "agent", dec[3], dec[5]
 	case len(segs) == 4 && segs[0] == "gateway" && segs[1] == "mesh" && segs[2] == "dc":
 		id.kind, id.dc = "gateway", dec[3]
-	case len(segs) == 4 && segs[0] == "agent" && segs[1] == "server" && segs[2] == "dc" && id.ap == "default" && !strings.HasPrefix(path, "ap/"):
+	case len(segs) == 4 && segs[0] == "agent" && segs[1] == "server" && segs[2] == "dc" && !hasAP:
 		id.kind, id.dc = "server", dec[3]
 	default:
-		return ident{}, false
+		return ident{}, false, decor
 	}
-	return id, true
+	return id, true, decor
 }
 
 func pctDecode(s string) (string, bool) {
@@ -1329,14 +1343,15 @@ func hexv(c byte) (byte, bool) {
 // ------------------------------------------------------------------ worlds
 
 type world struct {
-	id      int
-	m       *machine
-	d       *consul.VerifCADelegate
-	mgr     *consul.CAManager
-	env     genEnv
-	key     *ecdsa.PrivateKey
-	steps   []Step
-	serials []uint64 // every serial observed (CA increments and leaf certificates), in order
+	id         int
+	m          *machine
+	d          *consul.VerifCADelegate
+	mgr        *consul.CAManager
+	env        genEnv
+	key        *ecdsa.PrivateKey
+	steps      []Step
+	serials    []uint64 // every serial observed (CA increments and leaf certificates), in order
+	rotateErrs []string
 }
 
 func classify(err error) (string, string) {
@@ -1348,9 +1363,15 @@ func classify(err error) (string, string) {
 		return "email", s
 	case strings.Contains(s, "must have 'spiffe' scheme"):
 		return "scheme", s
-	case strings.HasPrefix(s, "Invalid admin partition:"), strings.HasPrefix(s, "Invalid namespace:"),
-		strings.HasPrefix(s, "Invalid datacenter:"), strings.HasPrefix(s, "Invalid service:"), strings.HasPrefix(s, "Invalid node:"):
+	case strings.Contains(s, "Invalid admin partition:"), strings.Contains(s, "Invalid namespace:"),
+		strings.Contains(s, "Invalid datacenter:"), strings.Contains(s, "Invalid service:"), strings.Contains(s, "Invalid node:"):
 		return "unescape", s
+	case strings.Contains(s, "is not for the correct node"):
+		return "wrong_node", s
+	case strings.Contains(s, "SPIFFE ID is not an Agent ID"):
+		return "not_agent", s
+	case strings.Contains(s, "Failed to parse CSR"):
+		return "bad_csr", s
 	case strings.Contains(s, "not in the expected format"):
 		return "format", s
 	case strings.Contains(s, "supported in Enterprise only"), strings.Contains(s, "must be a service, mesh-gateway, or agent ID"):
@@ -1429,6 +1450,23 @@ func (w *world) rotate(rng *rand.Rand) error {
 	return w.mgr.UpdateConfiguration(args)
 }
 
+// recluster applies a raw CAOpSetConfig (as another leader or an operator tool could) that changes
+// the stored ClusterID: from then on the trust domain of this datacenter is the new one.
+func (w *world) recluster(rng *rand.Rand) {
+	_, cur, err := w.m.f.State().CAConfig(nil)
+	if err != nil || cur == nil {
+		return
+	}
+	nc := *cur
+	nc.ClusterID = []string{"c2", "22222222-2222-3333-4444-555555555555", "C1", w.env.cluster}[rng.Intn(4)]
+	if rng.Intn(2) == 0 {
+		nc.ModifyIndex = 0 // plain set
+	}
+	if _, err := w.d.ApplyCARequest(&structs.CARequest{Op: structs.CAOpSetConfig, Config: &nc}); err != nil {
+		panic(fmt.Sprintf("world %d: recluster: %v", w.id, err))
+	}
+}
+
 func (w *world) snapshot(rng *rand.Rand) {
 	w.m.idx++
 	if err := w.m.snapshotRestore(); err != nil {
@@ -1445,7 +1483,12 @@ func (w *world) snapshot(rng *rand.Rand) {
 }
 
 func (w *world) sign(rng *rand.Rand, n int) SignCase {
-	sc := SignCase{Type: "sign", World: w.id, N: n, DC: hx(w.env.dc), Cluster: hx(w.env.cluster)}
+	// the trust domain is derived from the ClusterID of the stored CA configuration on every request
+	cluster := w.env.cluster
+	if _, cfg, _ := w.m.f.State().CAConfig(nil); cfg != nil {
+		cluster = cfg.ClusterID
+	}
+	sc := SignCase{Type: "sign", World: w.id, N: n, DC: hx(w.env.dc), Cluster: hx(cluster)}
 	// ---- generate the request
 	var spec sanSpec
 	nuri := 1
@@ -1459,10 +1502,21 @@ func (w *world) sign(rng *rand.Rand, n int) SignCase {
 	default:
 		nuri = 3
 	}
+	entry := "authorize"
+	if rng.Intn(100) < 16 {
+		entry = "autoconf"
+	}
+	sc.Entry = entry
 	var gens []genURI
 	var shapes []string
 	for i := 0; i < nuri; i++ {
 		g := genOneURI(rng, w.env)
+		if entry == "autoconf" {
+			// auto-config requests carry agent identities; keep a share of other kinds
+			for k := 0; k < 4 && g.kind != "agent" && rng.Intn(100) < 85; k++ {
+				g = genOneURI(rng, w.env)
+			}
+		}
 		gens = append(gens, g)
 		spec.uris = append(spec.uris, g.raw)
 		shapes = append(shapes, g.shape)
@@ -1513,13 +1567,39 @@ func (w *world) sign(rng *rand.Rand, n int) SignCase {
 	before := w.m.dump()
 	sc.HasSer, sc.Serial, sc.Builtin = before.HasSerial, before.Serial, before.BuiltinIdx
 	csrStrings := make([]string, len(csr.URIs))
+	reqURLs := make([]url.URL, len(csr.URIs)) // SignCertificate replaces csr.URIs for agents
 	for i, u := range csr.URIs {
 		csrStrings[i] = u.String()
+		reqURLs[i] = *u
 	}
 
 	// ---- the implementation
 	nser := len(w.serials)
-	issued, err := w.mgr.AuthorizeAndSignCertificate(csr, az.a)
+	var issued *structs.IssuedCert
+	node := ""
+	if entry == "authorize" {
+		issued, err = w.mgr.AuthorizeAndSignCertificate(csr, az.a)
+	} else {
+		// The real AutoConfig.InitialConfiguration (request datacenter test, the updaters,
+		// updateTLSCertificatesInConfig -> backend.SignCertificate = CAManager.SignCertificate) with an
+		// authorizer standing for a JWT that validates for `node`: it runs the real parseAutoConfigCSR
+		// and the node-name comparison of jwtAuthorizer.Authorize (copied in the hook file).
+		node = nodeNames[rng.Intn(len(nodeNames))]
+		if len(gens) > 0 && gens[0].kind == "agent" && rng.Intn(100) < 80 {
+			if d := decodedCandidates(gens[0].raw); len(d) > 0 {
+				node = d[len(d)-1] // the decoded last segment: what a well-behaved agent sends
+			}
+		}
+		if node == "" {
+			node = "n1"
+		}
+		sc.Node = hx(node)
+		var certPEM string
+		certPEM, err = consul.VerifCAAutoConfigSign(w.mgr, w.d, node, pemCSR)
+		if err == nil {
+			issued = &structs.IssuedCert{CertPEM: certPEM}
+		}
+	}
 	if err != nil {
 		cls, msg := classify(err)
 		sc.Expect = SignExpect{Err: cls, Msg: msg}
@@ -1588,59 +1668,102 @@ func (w *world) sign(rng *rand.Rand, n int) SignCase {
 	if len(spec.uris) != 1 || len(spec.emails) != 0 {
 		fail("issued-for-bad-san-set", "%d URIs, %d e-mail SANs", len(spec.uris), len(spec.emails))
 	}
+	// DNS names: the name that designates a server of the datacenter may only go to a server identity
+	serverSAN := ""
+	for _, d := range leaf.DNSNames {
+		if strings.HasPrefix(strings.ToLower(d), "server.") {
+			serverSAN = d
+		}
+	}
 	if len(leaf.URIs) != 1 {
 		fail("leaf-uri-count", "%d URIs in the leaf", len(leaf.URIs))
 	} else {
-		lid, ok := readIdentity(leaf.URIs[0].String())
+		leafStr := leaf.URIs[0].String()
+		sc.LeafEqRq = len(csrStrings) == 1 && leafStr == csrStrings[0] // the CA did not re-print the URI
+		lid, ok, decor := readIdentity(leafStr)
+		if len(spec.uris) == 1 {
+			_, _, rdecor := readIdentity(strings.Replace(spec.uris[0], "SPIFFE:", "spiffe:", 1))
+			sc.DecorRq = decor != "" && rdecor == decor
+		}
 		sc.IDKind = lid.kind
+		if decor != "" {
+			fail("decorated-uri", "leaf URI %q is not of the form spiffe://<trust domain>/<path>: %s", leafStr, decor)
+		}
 		if !ok {
-			fail("issued-unreadable-identity", "leaf URI %q is not a well-formed workload/agent identity", leaf.URIs[0].String())
+			fail("issued-unreadable-identity", "leaf URI %q is not a well-formed workload/agent identity", leafStr)
+			// the one recorded mechanism: the leaf's path is the default re-encoding of the request's
+			// DECODED path (or of the agent identity re-printed from its decoded names) and the
+			// request's RawPath had an encoded "/" that thereby became a separator
+			sc.Mech = "other"
+			if len(reqURLs) == 1 {
+				rq, lf := &reqURLs[0], leaf.URIs[0]
+				if lf.RawPath == "" && strings.Contains(strings.ToLower(rq.RawPath), "%2f") {
+					switch {
+					case lf.Path == rq.Path:
+						sc.Mech = "reencoded-decoded-path-with-slash"
+					case strings.HasPrefix(rq.Path, "/ap/") && strings.HasSuffix(rq.Path, lf.Path) && strings.HasPrefix(lf.Path, "/agent/client/dc/"):
+						sc.Mech = "reencoded-decoded-path-with-slash"
+					}
+				}
+			}
 		} else {
-			td := strings.ToLower(w.env.cluster + ".consul")
+			td := strings.ToLower(cluster + ".consul")
 			if strings.ToLower(lid.host) != td {
 				fail("foreign-trust-domain-"+lid.kind, "leaf identity host %q, trust domain %q", lid.host, td)
 			}
 			if lid.dc != w.env.dc {
 				fail("foreign-datacenter-"+lid.kind, "leaf identity datacenter %q, this is %q", lid.dc, w.env.dc)
 			}
-			if lid.ap != "default" || (lid.kind == "service" && lid.ns != "default") {
+			if lid.kind == "agent" && lid.ap != "default" {
+				fail("agent-partition", "agent identity in partition %q (the community edition has none)", lid.ap)
+			} else if lid.ap != "default" || (lid.kind == "service" && lid.ns != "default") {
 				fail("unsupported-scope", "partition %q namespace %q", lid.ap, lid.ns)
 			}
-			switch lid.kind {
-			case "service":
-				if az.a.ServiceWrite(lid.name, nil) != acl.Allow {
-					fail("unauthorized", "no service:write on %q", lid.name)
+			if serverSAN != "" && lid.kind != "server" {
+				fail("server-dns-san", "%s identity issued with the DNS name %q", lid.kind, serverSAN)
+			}
+			if entry == "autoconf" {
+				if lid.kind != "agent" {
+					fail("autoconf-non-agent", "auto-config issued a %s identity", lid.kind)
+				} else if lid.name != node {
+					fail("unauthorized", "auto-config authorized node %q, leaf is for %q", node, lid.name)
 				}
-			case "agent":
-				if az.a.NodeWrite(lid.name, nil) != acl.Allow {
-					fail("unauthorized", "no node:write on %q", lid.name)
-				}
-			case "gateway":
-				if az.a.MeshWrite(nil) != acl.Allow {
-					fail("unauthorized", "no mesh:write")
-				}
-			case "server":
-				if az.a.ACLWrite(nil) != acl.Allow {
-					fail("unauthorized", "no acl:write")
+			} else {
+				switch lid.kind {
+				case "service":
+					if az.a.ServiceWrite(lid.name, nil) != acl.Allow {
+						fail("unauthorized", "no service:write on %q", lid.name)
+					}
+				case "agent":
+					if az.a.NodeWrite(lid.name, nil) != acl.Allow {
+						fail("unauthorized", "no node:write on %q", lid.name)
+					}
+				case "gateway":
+					if az.a.MeshWrite(nil) != acl.Allow {
+						fail("unauthorized", "no mesh:write")
+					}
+				case "server":
+					if az.a.ACLWrite(nil) != acl.Allow {
+						fail("unauthorized", "no acl:write")
+					}
 				}
 			}
-			// the identity in the leaf is the identity that was requested (host coerced for agents)
+			// the identity in the leaf is the identity that was requested (host coerced for agents;
+			// an agent URI re-printed by the CA carries no partition)
 			if len(spec.uris) == 1 {
-				rid, rok := readIdentity(strings.Replace(spec.uris[0], "SPIFFE://", "spiffe://", 1))
-				if !rok {
-					// the oracle's strict reader rejects the request spelling (userinfo, query, ...):
-					// compare through the URL the CSR parser produced
-					rid, rok = readIdentity(csrStrings[0])
-				}
+				rid, rok, _ := readIdentity(strings.Replace(spec.uris[0], "SPIFFE:", "spiffe:", 1))
 				if rok {
 					if lid.kind == "agent" {
 						rid.host = lid.host
+						if !sc.LeafEqRq {
+							rid.ap = lid.ap
+						}
 					}
 					rid.host, lid.host = strings.ToLower(rid.host), strings.ToLower(lid.host)
 					if rid != lid {
 						fail("identity-changed", "requested %+v, issued %+v", rid, lid)
 					}
-				} else if lid.kind != "agent" {
+				} else {
 					fail("identity-changed", "request URI %q unreadable but leaf carries %+v", spec.uris[0], lid)
 				}
 			}
@@ -1670,10 +1793,12 @@ func runWorld(rng *rand.Rand, id int, key *ecdsa.PrivateKey, nsign int, emit fun
 		switch p := rng.Intn(100); {
 		case p < 5:
 			if err := w.rotate(rng); err != nil {
-				panic(fmt.Sprintf("world %d: rotate: %v", id, err))
+				w.rotateErrs = append(w.rotateErrs, err.Error())
 			}
 		case p < 9:
 			w.snapshot(rng)
+		case p < 12:
+			w.recluster(rng)
 		}
 		emit(w.sign(rng, k))
 	}
@@ -1686,6 +1811,22 @@ func runWorld(rng *rand.Rand, id int, key *ecdsa.PrivateKey, nsign int, emit fun
 
 // escapeTable: for every byte, whether (*url.URL).EscapedPath escapes it in a path (the model's
 // should_escape_path), and whether url.PathUnescape accepts "%"+two bytes as hex (is_hex).
+// validTable: for every byte except '%', whether net/url accepts it in a RawPath (validEncoded):
+// EscapedPath returns the RawPath "/c" when it does and re-encodes the Path otherwise; for bytes that
+// need no escaping both give "/c", and those bytes are valid.
+func validTable() (v [256]bool) {
+	for c := 0; c < 256; c++ {
+		if c == '%' {
+			v[c] = true
+			continue
+		}
+		p := "/" + string([]byte{byte(c)})
+		u := url.URL{Path: p, RawPath: p}
+		v[c] = u.EscapedPath() == p
+	}
+	return
+}
+
 func escapeTable() (esc [256]bool, hexd [256]int) {
 	for c := 0; c < 256; c++ {
 		u := url.URL{Path: "/" + string([]byte{byte(c)})}
@@ -1729,6 +1870,12 @@ func main() {
 		hl = append(hl, hexd[c])
 	}
 	tab["escape_path"], tab["hex"] = el, hl
+	vt := validTable()
+	var vl []bool
+	for c := 0; c < 256; c++ {
+		vl = append(vl, vt[c])
+	}
+	tab["valid_enc"] = vl
 	emit(tab)
 
 	key, err := ecdsa.GenerateKey(elliptic.P256(), crand.Reader)
